@@ -230,6 +230,8 @@ def spin_oracle(case, out):
 
 class Check(DiffCheck):
     id = 'C01'
+    # lockset engine (lib/lockset.py): mutex slow path enqueues with splock held (deferred unlock), hand-off under splock + head's thread.lock
+    lockset_rules = {10, 11, 12, 13, 14, 15, 20}
     needs_libphoton = True
     coq_dirs = ['Base', 'C04', 'Sched', 'E3', 'C01']
     coq_targets = ['C01/C01_Excl.vo', 'C01/C01_I2.vo', 'C01/C01_Handoff.vo', 'C01/C01_Finding.vo',
